@@ -11,7 +11,7 @@ import (
 func init() {
 	register(&Prop{
 		ID:         "C04",
-		Decided:    "(1) the four key encoders that partition rows (GroupAggregator.Add key, CountingWindow.getKey, extractSessionCompositeKey, GlobalWindow.getKeyAndValues) produce uniquely decodable keys: every raw component framed, NULL/missing distinct from every value, no impure input (keyenc); (2) function-expression group keys are injected before the row reaches Window.Add; (3) GetResults reports the typed key values recorded for the key it iterates; (4) parser loops that track the parenthesis depth end a list item at a comma only at depth 0 (function keys with several arguments stay one key). Also: the typed key tuple stored per group holds exactly one entry per group field (nil for NULL/missing), so position i is field i. Also: in the clause parsers every non-error way out of a function after a token was written into the item's strings.Builder passes a read of the accumulated text (flow/accumulated-text-consumed): the last item of a clause cannot be dropped by an early return.",
+		Decided:    "(1) the four key encoders that partition rows (GroupAggregator.Add key, CountingWindow.getKey, extractSessionCompositeKey, GlobalWindow.getKeyAndValues) produce uniquely decodable keys: every raw component framed, NULL/missing distinct from every value, no impure input, and no interface value widened to float64 (cast.ToFloat64/ToFloat64E) and then rendered unless the 64-bit integer types were taken by earlier type-switch cases - float64 has 53 bits (keyenc); (2) function-expression group keys are injected before the row reaches Window.Add; (3) GetResults reports the typed key values recorded for the key it iterates; (4) parser loops that track the parenthesis depth end a list item at a comma only at depth 0 (function keys with several arguments stay one key). Also: the typed key tuple stored per group holds exactly one entry per group field (nil for NULL/missing), so position i is field i. Also: in the clause parsers every non-error way out of a function after a token was written into the item's strings.Builder passes a read of the accumulated text (flow/accumulated-text-consumed): the last item of a clause cannot be dropped by an early return.",
 		NotDecided: "the values of function-expression keys; that cast.ToString/%v map distinct values of one scalar type to distinct strings (floats by shortest round-trip); output naming under aliases.",
 		Run:        runC04,
 	})
@@ -98,6 +98,17 @@ func init() {
 						}
 						kt := TermOf(idx, nil)
 						ok2 := kt.Kind == "mapkey" && kt.Base.Kind == "field" && kt.Base.Field == groups
+						if !ok2 {
+							// the groups may be walked in another order (a slice of keys): then the tuple must be read under
+							// the very key the group's accumulators are read under
+							allInstrs(lk.Parent(), func(x ssa.Instruction) {
+								if l2, isL := x.(*ssa.Lookup); isL && l2 != lk {
+									if t2 := TermOf(l2.X, nil); t2.Kind == "field" && t2.Field == groups && sameValue(l2.Index, lk.Index) {
+										ok2 = true
+									}
+								}
+							})
+						}
 						a.Check(ok2, fname(gr)+"#keyvals-lookup", in.Pos(), "the reported tuple is groupKeyVals[key] for the key being iterated", "GetResults reads groupKeyVals with "+kt.String()+", not the iterated group key")
 					}
 				}
